@@ -531,6 +531,21 @@ class H:
         return False
 
     @staticmethod
+    def append_after_unmarks(c):
+        """the event is a transaction of one splice_text that appends at the end of a text on which an earlier call of
+        the scenario was an unmark (so tombstoned characters and unmark anchors can follow the last visible character)"""
+        sc, idx, e = c.get('scenario') or [], c.get('index', -1), c.get('event') or {}
+        calls = e.get('calls') or []
+        if e.get('ev') != 'commit' or len(calls) != 1 or calls[0].get('fn') != 'splice_text' or calls[0].get('del') != 0:
+            return False
+        call = calls[0]
+        before = [o for o in (call.get('before') or []) if o['id'] == call.get('obj')]
+        if not before or call.get('idx') != before[0].get('len'):
+            return False
+        return any(k.get('fn') == 'unmark' and k.get('obj') == call.get('obj') and k.get('res') == 'ok'
+                   for p in sc[:idx] for k in (p.get('calls') or []))
+
+    @staticmethod
     def put_patch_counter_stale(e):
         """a Put patch of a remote batch carries a counter value other than the value that counter has afterwards
         (increments of the same batch are missing from it)"""
